@@ -241,7 +241,7 @@ func apply(dir string, rows []model.Row, c *Case) (path string, ex expect, err e
 
 // expectFromFile derives, from the final state of the damaged file, whether
 // the property REQUIRES OpenIndex to fail.  Everything else (truncated or
-// bit-flipped schema, over-long counter, truncated bitmap) may go either way.
+// bit-flipped schema, truncated bitmap) may go either way.
 func expectFromFile(path string, preload bool) (ex expect, err error) {
 	db, err := bbolt.Open(path, 0o644, &bbolt.Options{ReadOnly: true})
 	if err != nil {
@@ -263,6 +263,8 @@ func expectFromFile(path string, preload bool) (ex expect, err error) {
 			ex = expect{true, "the row counter is missing"}
 		case len(b.Get([]byte("I"))) < 4:
 			ex = expect{true, "the row counter is shorter than 4 bytes"}
+		case len(b.Get([]byte("I"))) > 4:
+			ex = expect{true, "the row counter is longer than 4 bytes (malformed: the format stores exactly 4)"}
 		case preload:
 			cur := b.Cursor()
 			for k, v := cur.Seek([]byte("V")); k != nil && k[0] == 'V'; k, v = cur.Next() {
